@@ -70,11 +70,13 @@ def fetchRef (rs : RSong) (root : List BEvent) (c : Core) (prev : Option Ref) : 
 def isReturn (rs : RSong) (root : List BEvent) (c : Core) : Bool :=
   !c.stack.isEmpty && (fetch (eraseTrack (codeR rs root c.track)) c.position).kind == .fin
 
-/-- `reference` after a return: the calling `JUMP` event's (`get_event(position - 1)`) -/
-def returnRef (rs : RSong) (root : List BEvent) (c' : Core) (r : Option Ref) : Option Ref :=
+/-- `reference` after a return: the calling `JUMP` event's (`get_event(position - 1)`).  A return
+frame always records the position behind the `JUMP` that pushed it, so the event exists; were it
+missing `vector::at` would throw — modelled as "no reference". -/
+def returnRef (rs : RSong) (root : List BEvent) (c' : Core) (_r : Option Ref) : Option Ref :=
   match (codeR rs root c'.track)[c'.position - 1]? with
   | some e => e.ref
-  | none => r
+  | none => none
 
 /-- a player together with `Basic_Player::reference` -/
 structure RState where
